@@ -210,7 +210,33 @@ def find(ctx, c, img, h):
         kw['rms'] = c['noise'] if c.get('noise') else abs(c['peak']) / c['snr']
     if opts[1] == 'f':
         kw['bkg'] = float(c.get('pedestal', 0.0))
-    return sf.find_sources_in_image(fn, **kw)
+    cap = getattr(ctx, '_c01_capture', None)
+    if cap is None:
+        return sf.find_sources_in_image(fn, **kw)
+    # record what estimate_lmfit_parinfo was given and what bounds it set (bounds stream)
+    real = SourceFinder.estimate_lmfit_parinfo
+
+    def spy(self, data, rmsimg, curve, beam, innerclip, outerclip=None, offsets=(0, 0), max_summits=None):
+        params = real(self, data, rmsimg, curve, beam, innerclip, outerclip, offsets=offsets, max_summits=max_summits)
+        if params is not None and int(params['components'].value) >= 1:
+            rec = dict(shape=[int(data.shape[0]), int(data.shape[1])], offsets=[int(offsets[0]), int(offsets[1])],
+                       innerclip=float(innerclip), outerclip=float(outerclip if outerclip is not None else innerclip),
+                       ncomp=int(params['components'].value))
+            xo, yo = int(params['c0_xo'].value), int(params['c0_yo'].value)
+            rec['rms'] = float(rmsimg[xo, yo])
+            rec['pixbeam'] = [float(v) for v in self.global_data.psfhelper.get_psf_pix2pix(yo + offsets[0], xo + offsets[1])]
+            for k in ('amp', 'xo', 'yo', 'sx', 'sy', 'theta'):
+                q = params['c0_' + k]
+                rec[k] = [float(q.value), float(q.min), float(q.max)]
+            cap.append(rec)
+        return params
+    SourceFinder.estimate_lmfit_parinfo = spy
+    try:
+        out = sf.find_sources_in_image(fn, **kw)
+    finally:
+        SourceFinder.estimate_lmfit_parinfo = real
+    ctx._c01_wcshelper = sf.global_data.wcshelper
+    return out
 
 
 CASE_TIMEOUT = 45   # seconds of wall time for one find_sources_in_image run on a <= 256x256 image (normal: 0.05 - 3 s)
@@ -408,6 +434,8 @@ def loop_case(ctx, c, record=True):
     if c.get('noise'):
         return judge_noisy(ctx, c, truth, w, out, record)
     bad, m = judge(c, truth, w, out, img)
+    if record and getattr(ctx, '_c01_capture', None):
+        check_bounds(ctx, c, truth, ctx._c01_capture)
     if record:
         fx, fy = abs(c['xy'][0] - round(c['xy'][0])), abs(c['xy'][1] - round(c['xy'][1]))
         nontriv = (max(fx, fy) > 0.02) and (c['b'] < c['a'] or c['pa'] % 90 != 0) and len(out) >= 1
@@ -427,6 +455,58 @@ def loop_case(ctx, c, record=True):
             report(ctx, 'spec', dict(c, pretty=pretty(c)),
                    dict(failed=bad, measured=m, truth=truth, tolerances=TOL), signature(c, bad, m, img))
     return bad, m
+
+
+def check_bounds(ctx, c, truth, cap):
+    """bounds stream, one isolated source = one island with one summit:
+    (corr) the bounds estimate_lmfit_parinfo set equal the regenerated model's (driver op `bounds`);
+    (spec) the TRUE pixel-space parameters lie inside them (truth_within_bounds_pos/neg), beyond the property's tolerances"""
+    from AegeanTools import source_finder
+    recs = [r for r in cap if r['ncomp'] == 1]
+    del cap[:]
+    if len(recs) != 1:
+        return
+    r = recs[0]
+    f2c = source_finder.FWHM2CC
+    args = [LN2, f2c, r['amp'][0], r['rms'], r['innerclip'], r['outerclip'], r['pixbeam'][0], r['pixbeam'][1],
+            float(r['shape'][0]), float(r['shape'][1])]
+    o = ctx.driver.batch(['bounds ' + ' '.join(f2h(v) for v in args)])[0]
+    info = dict(case=pretty(c), captured=r)
+    ctx.count('bounds')
+    if o == 'bad-op':
+        ctx.fail('corr', info, 'driver rejected the bounds request', dict(site='estimate_lmfit_parinfo', what='bounds-op'))
+        return
+    g = [h2f(t) for t in o.split()]
+    want = [None, r['amp'][1], r['amp'][2], r['xo'][2] - r['xo'][0], r['sx'][0], r['sy'][0], r['sx'][1], r['sx'][2], r['sy'][1], r['sy'][2]]
+    names = ['sampling', 'amp_min', 'amp_max', 'xo_lim', 'sx', 'sy', 'sx_min', 'sx_max', 'sy_min', 'sy_max']
+    diff = [n for n, a, b in zip(names, g, want) if b is not None and not close(a, b, rel=1e-11, abs_=1e-13)]
+    if abs((r['yo'][2] - r['yo'][0]) - (r['xo'][2] - r['xo'][0])) > 1e-12 or abs((r['xo'][0] - r['xo'][1]) - (r['xo'][2] - r['xo'][0])) > 1e-12:
+        diff.append('xo/yo limits not symmetric and equal')
+    if not (math.isinf(r['theta'][1]) and math.isinf(r['theta'][2])):
+        diff.append('theta bounded')
+    ctx.case(dict(info, model=dict(zip(names, g))), 'bounds:' + pretty(c))
+    if diff:
+        ctx.fail('corr', info, f"bounds set by estimate_lmfit_parinfo differ from the regenerated model in {diff}: model {dict(zip(names, g))}",
+                 dict(site='estimate_lmfit_parinfo', what='bounds'))
+        return
+    # the truth, in the island's pixel coordinates
+    wh = ctx._c01_wcshelper
+    x, y, fx, fy, th = [float(v) for v in wh.sky2pix_ellipse((truth['ra'], truth['dec']), truth['a'] / 3600.0, truth['b'] / 3600.0, truth['pa'])]
+    t = dict(amp=truth['peak'], xo=x - 1 - r['offsets'][0], yo=y - 1 - r['offsets'][1], sx=fx * f2c, sy=fy * f2c)
+    out_of = []
+    if not (r['amp'][1] - 1e-3 * abs(t['amp']) <= t['amp'] <= r['amp'][2] + 1e-3 * abs(t['amp'])):
+        out_of.append('amp')
+    for k in ('xo', 'yo'):
+        if not (r[k][1] - 0.02 <= t[k] <= r[k][2] + 0.02):
+            out_of.append(k)
+    for k in ('sx', 'sy'):
+        if not (r[k][1] * 0.995 <= t[k] <= r[k][2] * 1.005):
+            out_of.append(k)
+    if out_of:
+        report(ctx, 'spec', dict(c, pretty=pretty(c)),
+               dict(failed=['truth-outside-bounds:' + '+'.join(out_of)], truth_pixel=t, bounds={k: r[k] for k in ('amp', 'xo', 'yo', 'sx', 'sy')},
+                    note='the true parameters are excluded by the bounds handed to lmfit by more than the tolerance of the clause'),
+               dict(site='estimate_lmfit_parinfo', clause='truth-outside-bounds', which='+'.join(out_of)))
 
 
 def judge_noisy(ctx, c, truth, w, out, record):
@@ -1012,7 +1092,9 @@ def run(ctx):
     worst = {}
     for k in range(n):
         c = gen_case(ctx.rng, ctx.quick)
+        ctx._c01_capture = [] if (k < (80 if ctx.quick else 400) and not c.get('symmetric') and c['a'] / c['b'] < 3.0) else None
         bad, m = loop_case(ctx, c)
+        ctx._c01_capture = None
         for q in ('dpos', 'dpeak', 'da', 'db', 'dpa', 'dint', 'dint_identity'):
             if q in m and not (q == 'dpa' and c['b'] / c['a'] > 0.95):
                 key = (q, c['proj'])
@@ -1025,7 +1107,43 @@ def run(ctx):
             ctx.note(f"closed loop, worst |{q}| over {n} noise-free runs: {max(vals):.3g}")
     if not ctx.quick:
         explore_noisy(ctx)
+        build_links(ctx)
     release_deferred(ctx)
+
+
+def build_links(ctx):
+    """thorough tier: compile lean/Aegean/Proofs/C01Links.lean (C16's inverse laws instantiate C01's oracle contract; C17's
+    great-circle distance gives the err_ra / err_dec theorem; C04's gauss is C01's gauss) and audit its axioms.  It depends
+    on C04, C16 and C17 building on the tree under test; the outcome is reported in the evidence."""
+    import re
+    ok, log = common.lean_build(['Aegean.Proofs.C01Links'])
+    info = dict(built=bool(ok))
+    fn = os.path.join(common.LEAN_DIR, 'Aegean', 'Proofs', 'C01Links.lean')
+    src = open(fn).read()
+    thms = re.findall(r'^theorem\s+(\S+)', src, re.M)
+    info['theorems'] = thms
+    code = re.sub(r'/-.*?-/', '', src, flags=re.S)
+    code = '\n'.join(l.split('--', 1)[0] for l in code.splitlines())
+    info['forbidden'] = sorted(set(m.group(0).strip() for m in common.FORBIDDEN.finditer(code)))
+    if ok:
+        tmp = os.path.join(common.LEAN_DIR, f'.audit_C01Links_{os.getpid()}.lean')
+        with open(tmp, 'w') as f:
+            f.write('import Aegean.Proofs.C01Links\n' + ''.join(f'#print axioms Aegean.C01Links.{t}\n' for t in thms))
+        try:
+            rc, out = common.run_cmd(['lake', 'env', 'lean', tmp], cwd=common.LEAN_DIR)
+        finally:
+            os.unlink(tmp)
+        ax = sorted({a.strip() for m in re.finditer(r"depends on axioms: \[([^\]]*)\]", out, re.S) for a in m.group(1).replace('\n', ' ').split(',') if a.strip()})
+        info['axioms'] = ax
+        info['audited'] = len(re.findall(r"depends on axioms|does not depend on any axioms", out))
+        bad = sorted(set(ax) - common.ALLOWED_AXIOMS)
+        if bad or info['forbidden'] or info['audited'] != len(thms):
+            raise RuntimeError(f"C01Links audit failed: axioms {bad}, forbidden tokens {info['forbidden']}, audited {info['audited']}/{len(thms)}")
+        ctx.note(f"C01Links: built, {len(thms)} theorems, axioms {ax}")
+    else:
+        info['errors'] = common.lean_errors(log)
+        ctx.note("C01Links did NOT build on this tree (it needs Aegean.Properties.C04, C16 and C17 to build): " + '; '.join(info['errors'][:3]))
+    ctx.extra['links'] = info
 
 
 def explore_noisy(ctx):
